@@ -88,7 +88,7 @@ func init() {
 		Technique: "runtime monitor: strconv/identity conversion oracle over the value read back (Value, pointer, Var, Called) after real Parse executions of hostile value texts in both spellings",
 		Rule: "case = one target scalar option (8 kinds, pointer- or Var-defined) inside a random program/argv context, value from a hostile pool (arbitrary bytes, leading dashes, '=', whitespace, newlines, boundary and malformed numerals), spelled `--name=v` or `--name v`, 3 modes; " +
 			"bool/increment repeated 1-4 times; optional-value options also without value. distinct = (kind, spelling, mode, value text); non-trivial = the value is not the option's default" + genDims,
-		Cases: func(tier string) int { return tierN(tier, 30000, 8000000) },
+		Cases: func(tier string) int { return tierN(tier, 100000, 8000000) },
 		Run: func(seed uint64, idx int, tier string) *fw.Result {
 			r := CaseRng(seed, "C01", idx)
 			kind := c01Kinds[idx%len(c01Kinds)]
